@@ -3,7 +3,9 @@ from __future__ import annotations
 import os, sys
 sys.path.insert(0, os.path.dirname(os.path.dirname(os.path.abspath(__file__))))
 import vlib
-from py2gallina import Translator, Fn, Unsupported
+import ast
+import copy
+from py2gallina import Translator, Fn, Unsupported, fail, coq_string, coq_Z, coq_ty, COQ_TY
 
 HEADER = """(* GENERATED from {src} by tools/extractors/t12.py -- do not edit; regenerated on every run *)
 From Coq Require Import ZArith List String Bool.
@@ -11,6 +13,303 @@ From C12 Require Import PyRules.
 Import ListNotations.
 Open Scope Z_scope.
 """
+
+
+COQ_TY.update({"listZ": "(list Z)", "vidx": "vidx", "thing": "thing", "num": "num"})
+PYCLASS = {"Z": {"int"}, "str": {"str"}, "bytes": {"bytes"}}
+
+
+class Rename(ast.NodeTransformer):
+    """Replace attribute / subscript chains (given as unparsed source text) by plain names."""
+
+    def __init__(self, table: dict[str, str]):
+        self.table = table
+
+    def generic_visit(self, node: ast.AST) -> ast.AST:
+        if isinstance(node, (ast.Attribute, ast.Subscript)):
+            txt = ast.unparse(node)
+            if txt in self.table:
+                return ast.copy_location(ast.Name(id=self.table[txt], ctx=ast.Load()), node)
+        return super().generic_visit(node)
+
+
+class T12(Translator):
+    """py2gallina + what the decision cores of mypy/reachability.py need (all fail-closed):
+    isinstance dispatch on (index, thing) -> match on constructors; `lo, hi = index`; `if x is None: x = c`;
+    tuple indexing (may raise IndexError: the function then returns `option Z`), slicing, len(); calls of
+    fixed_comparison at Z / list Z / string; set literals with `in` and `<=`; str.startswith."""
+
+    def __init__(self, src: str):
+        super().__init__(src)
+        self.sets: dict[str, list[tuple[str, str]]] = {}
+        self.known_calls = {}
+        self.preconditions: list[str] = []
+
+    # ---- return mode 'raiseZ': Some v = returned int, None = an exception escaped
+    def ret_type(self, cfg: Fn) -> str:
+        if cfg.ret == "raiseZ":
+            return "option Z"
+        if cfg.ret == "optstr":
+            return "option string"
+        if cfg.ret == "optbytes":
+            return "option (list N)"
+        return super().ret_type(cfg)
+
+    def fall_off(self, cfg: Fn):
+        if cfg.ret == "raiseZ":
+            return None
+        if cfg.ret in ("optstr", "optbytes"):
+            return "None"
+        return super().fall_off(cfg)
+
+    def wrap_return(self, e: str, t: str, node: ast.AST) -> str:
+        if self.cfg.ret == "raiseZ":
+            if t == "Z":
+                return f"(Some {e})"
+            if t == "raise:Z":
+                return e
+            raise fail(node, f"cannot return {t} as raiseZ")
+        if self.cfg.ret in ("optstr", "optbytes"):
+            want = "str" if self.cfg.ret == "optstr" else "bytes"
+            if t == "none":
+                return "None"
+            if t == want:
+                return f"(Some {e})"
+            raise fail(node, f"cannot return {t} as {self.cfg.ret}")
+        return super().wrap_return(e, t, node)
+
+    # ---- partial evaluation of isinstance tests whose operand has a static type tag
+    def static_truth(self, t: ast.expr, env):
+        if isinstance(t, ast.Constant) and isinstance(t.value, bool):
+            return t.value
+        if (isinstance(t, ast.Call) and isinstance(t.func, ast.Name) and t.func.id == "isinstance" and len(t.args) == 2
+                and isinstance(t.args[0], ast.Name) and env.get(t.args[0].id) in PYCLASS):
+            cls = t.args[1]
+            elts = cls.elts if isinstance(cls, ast.Tuple) else [cls]
+            if not all(isinstance(c, ast.Name) for c in elts):
+                return None
+            return bool(PYCLASS[env[t.args[0].id]] & {c.id for c in elts})
+        if isinstance(t, ast.UnaryOp) and isinstance(t.op, ast.Not):
+            v = self.static_truth(t.operand, env)
+            return None if v is None else not v
+        if isinstance(t, ast.BoolOp):
+            vs = [self.static_truth(v, env) for v in t.values]
+            if isinstance(t.op, ast.And):
+                return False if False in vs else (True if all(v is True for v in vs) else None)
+            return True if True in vs else (False if all(v is False for v in vs) else None)
+        return None
+
+    # ---- statements
+    def block(self, stmts, env, k):
+        if stmts:
+            s, rest = stmts[0], stmts[1:]
+            if isinstance(s, ast.Assert) and ast.unparse(s.test) == "not (isinstance(left, int) and isinstance(right, int))" \
+                    and env.get("left") == "num" and env.get("right") == "num":
+                self.preconditions.append("not both operands are ints")
+                return self.block(rest, env, k)
+            if isinstance(s, ast.If):
+                st = self.static_truth(s.test, env)
+                if st is False:
+                    return self.block(list(s.orelse) + rest, env, k)
+                if st is True:
+                    return self.block(list(s.body) + rest, env, k)
+                d = self.isinstance_dispatch(s.test, env)
+                if d is not None:
+                    pat, env2 = d
+                    krest = self.block(rest, env, k) if (rest or k is not None) else None
+                    a = self.block(s.body, env2, krest)
+                    b = self.block(s.orelse, dict(env), krest)
+                    return f"(match index, thing with\n | {pat} => {a}\n | _, _ => {b}\n end)"
+                # if x is None: x = <const>
+                t = s.test
+                if (isinstance(t, ast.Compare) and len(t.ops) == 1 and isinstance(t.ops[0], ast.Is)
+                        and isinstance(t.left, ast.Name) and isinstance(t.comparators[0], ast.Constant)
+                        and t.comparators[0].value is None and not s.orelse and len(s.body) == 1
+                        and isinstance(s.body[0], ast.Assign) and len(s.body[0].targets) == 1
+                        and isinstance(s.body[0].targets[0], ast.Name) and s.body[0].targets[0].id == t.left.id
+                        and env.get(t.left.id) == "opt:Z"):
+                    x = t.left.id
+                    d_, dt = self.expr(s.body[0].value, env)
+                    if dt != "Z":
+                        raise fail(s, "default of another type")
+                    env2 = dict(env)
+                    env2[x] = "Z"
+                    return f"(let {x} := (match {x} with Some v__ => v__ | None => {d_} end) in\n {self.block(rest, env2, k)})"
+            if (isinstance(s, ast.Assign) and len(s.targets) == 1 and isinstance(s.targets[0], ast.Tuple)
+                    and isinstance(s.value, ast.Name) and env.get(s.value.id) == "pair:optZ"):
+                names = [e.id for e in s.targets[0].elts if isinstance(e, ast.Name)]
+                if len(names) != 2 or len(s.targets[0].elts) != 2:
+                    raise fail(s, "tuple unpacking")
+                env2 = dict(env)
+                env2[names[0]] = env2[names[1]] = "opt:Z"
+                v = s.value.id
+                return f"(let {names[0]} := {v}_0 in let {names[1]} := {v}_1 in\n {self.block(rest, env2, k)})"
+            if (isinstance(s, ast.Assign) and len(s.targets) == 1 and isinstance(s.targets[0], ast.Name)
+                    and isinstance(s.value, ast.Set)):
+                self.sets[s.targets[0].id] = [self.expr(x, env) for x in s.value.elts]
+                return self.block(rest, env, k)
+        return super().block(stmts, env, k)
+
+    def isinstance_dispatch(self, test: ast.expr, env):
+        """isinstance(index, C) and isinstance(thing, C) with index : vidx, thing : thing"""
+        if not (isinstance(test, ast.BoolOp) and isinstance(test.op, ast.And) and len(test.values) == 2):
+            return None
+        got = {}
+        for v in test.values:
+            if not (isinstance(v, ast.Call) and isinstance(v.func, ast.Name) and v.func.id == "isinstance" and len(v.args) == 2
+                    and isinstance(v.args[0], ast.Name) and isinstance(v.args[1], ast.Name)):
+                return None
+            got[v.args[0].id] = v.args[1].id
+        if set(got) != {"index", "thing"} or env.get("index") != "vidx" or env.get("thing") != "thing":
+            return None
+        env2 = dict(env)
+        if got == {"index": "int", "thing": "int"}:
+            env2["index"] = env2["thing"] = "Z"
+            return "IdxInt index, ThInt thing", env2
+        if got == {"index": "tuple", "thing": "tuple"}:
+            env2["index"] = "pair:optZ"
+            env2["thing"] = "listZ"
+            return "IdxSlice index_0 index_1, ThTuple thing", env2
+        raise fail(test, "isinstance dispatch on other classes")
+
+    # ---- expressions
+    def expr(self, e, env):
+        if isinstance(e, ast.BinOp):
+            l, lt = self.expr(e.left, env)
+            r, rt = self.expr(e.right, env)
+            sym = {ast.Add: "+", ast.Sub: "-", ast.Mult: "*", ast.Div: "/", ast.FloorDiv: "//", ast.Mod: "%", ast.Pow: "**"}.get(type(e.op))
+            if lt == rt == "num" and sym:
+                return f"(py_num_binop fo {coq_string(sym)} {l} {r})", "res:float"
+            if lt == rt == "str" and sym == "+":
+                return f"(String.append {l} {r})", "str"
+            if (lt, rt) == ("str", "Z") and sym == "*":
+                return f"(py_str_repeat {l} {r})", "str"
+            if (lt, rt) == ("Z", "str") and sym == "*":
+                return f"(py_str_repeat {r} {l})", "str"
+            if lt == rt == "bytes" and sym == "+":
+                return f"({l} ++ {r})", "bytes"
+            if (lt, rt) == ("bytes", "Z") and sym == "*":
+                return f"(py_bytes_repeat {l} {r})", "bytes"
+            if (lt, rt) == ("Z", "bytes") and sym == "*":
+                return f"(py_bytes_repeat {r} {l})", "bytes"
+            if "num" in (lt, rt) or "str" in (lt, rt) or "bytes" in (lt, rt):
+                raise fail(e, f"binary op on {lt},{rt}")
+        if (isinstance(e, ast.Call) and isinstance(e.func, ast.Name) and e.func.id == "isinstance" and len(e.args) == 2
+                and isinstance(e.args[0], ast.Name) and env.get(e.args[0].id) == "num" and isinstance(e.args[1], ast.Name)):
+            if e.args[1].id == "int":
+                return f"(num_is_int {e.args[0].id})", "bool"
+            if e.args[1].id == "float":
+                return f"(negb (num_is_int {e.args[0].id}))", "bool"
+            raise fail(e, "isinstance on a number")
+        if isinstance(e, ast.Call) and isinstance(e.func, ast.Name) and e.func.id == "isinstance":
+            st = self.static_truth(e, env)
+            if st is not None:
+                return ("true" if st else "false"), "bool"
+        if isinstance(e, ast.Subscript) and isinstance(e.value, ast.Name) and env.get(e.value.id) == "listZ":
+            if isinstance(e.slice, ast.Slice):
+                if e.slice.step is not None or e.slice.lower is None or e.slice.upper is None:
+                    raise fail(e, "slice form")
+                lo, lt = self.expr(e.slice.lower, env)
+                hi, ht = self.expr(e.slice.upper, env)
+                if lt != "Z" or ht != "Z":
+                    raise fail(e, "slice bounds")
+                return f"(py_slice {e.value.id} {lo} {hi})", "listZ"
+            i, it = self.expr(e.slice, env)
+            if it != "Z":
+                raise fail(e, "index type")
+            return f"(py_tuple_index {e.value.id} {i})", "raise:Z"
+        if isinstance(e, ast.Call) and isinstance(e.func, ast.Name) and e.func.id == "len" and len(e.args) == 1 and not e.keywords:
+            x, t = self.expr(e.args[0], env)
+            if t != "listZ":
+                raise fail(e, "len of non-list")
+            return f"(Z.of_nat (List.length {x}))", "Z"
+        if isinstance(e, ast.Call) and isinstance(e.func, ast.Name) and e.func.id == "fixed_comparison" and len(e.args) == 3 and not e.keywords:
+            a, at = self.expr(e.args[0], env)
+            o, ot = self.expr(e.args[1], env)
+            b, bt = self.expr(e.args[2], env)
+            if ot != "str":
+                raise fail(e, "operator type")
+            inst = {"Z": "Z Z.compare", "listZ": "(list Z) tuple_cmp", "str": "string String.compare"}
+            if at == "raise:Z" and bt == "Z":
+                return f"(match {a} with Some v__ => Some (fixed_comparison Z Z.compare v__ {o} {b}) | None => None end)", "raise:Z"
+            if at != bt or at not in inst:
+                raise fail(e, f"fixed_comparison at {at},{bt}")
+            return f"(fixed_comparison {inst[at]} {a} {o} {b})", "Z"
+        if (isinstance(e, ast.Call) and isinstance(e.func, ast.Attribute) and e.func.attr == "startswith"
+                and len(e.args) == 1 and not e.keywords):
+            x, xt = self.expr(e.func.value, env)
+            y, yt = self.expr(e.args[0], env)
+            if xt != "str" or yt != "str":
+                raise fail(e, "startswith on non-str")
+            return f"(String.prefix {y} {x})", "bool"
+        return super().expr(e, env)
+
+    def compare(self, a, op, b, env, node):
+        # an int-or-float compared with the literal 0
+        if isinstance(a, ast.Name) and env.get(a.id) == "num" and isinstance(b, ast.Constant) and b.value == 0 and type(b.value) is int:
+            if isinstance(op, ast.NotEq):
+                return f"(negb (num_is_zero fo {a.id}))"
+            if isinstance(op, ast.Lt):
+                return f"(num_lt0 fo {a.id})"
+            if isinstance(op, ast.Gt):
+                return f"(num_gt0 fo {a.id})"
+            raise fail(node, "comparison of a number with 0")
+        # membership in / inclusion of a remembered two-element set literal
+        if isinstance(op, ast.In) and isinstance(b, ast.Name) and b.id in self.sets:
+            x, xt = self.expr(a, env)
+            if xt != "Z" or any(t != "Z" for _, t in self.sets[b.id]):
+                raise fail(node, "set membership types")
+            return "(" + " || ".join(f"({x} =? {m})%Z" for m, _ in self.sets[b.id]) + ")"
+        if isinstance(op, ast.LtE) and isinstance(a, ast.Name) and a.id in self.sets and isinstance(b, ast.Set):
+            items = [self.expr(i, env) for i in b.elts]
+            if any(t != "Z" for _, t in items):
+                raise fail(node, "set inclusion types")
+            return "(" + " && ".join("(" + " || ".join(f"({m} =? {i})%Z" for i, _ in items) + ")" for m, _ in self.sets[a.id]) + ")"
+        return super().compare(a, op, b, env, node)
+
+    # ---- module-level dict literal -> function into option
+    def dict_table(self, name: str, coq_name: str) -> str:
+        for n in self.tree.body:
+            tgt = val = None
+            if isinstance(n, ast.AnnAssign) and isinstance(n.target, ast.Name):
+                tgt, val = n.target.id, n.value
+            elif isinstance(n, ast.Assign) and len(n.targets) == 1 and isinstance(n.targets[0], ast.Name):
+                tgt, val = n.targets[0].id, n.value
+            if tgt == name and isinstance(val, ast.Dict):
+                pairs = [(self.expr(k, {}), self.expr(v, {})) for k, v in zip(val.keys, val.values)]
+                kt = {t for (_, t), _ in pairs}
+                vt = {t for _, (_, t) in pairs}
+                if len(kt) != 1 or len(vt) != 1 or kt != vt or kt - {"str", "Z"}:
+                    raise Unsupported(f"dict {name}: key/value types {kt} {vt}")
+                t = kt.pop()
+                eq = {"str": "String.eqb {} {}", "Z": "({} =? {})%Z"}[t]
+                body = "None"
+                for (k, _), (v, _) in reversed(pairs):   # a later duplicate key would win in Python: reject duplicates
+                    body = f"(if {eq.format('k', k)} then Some {v}\n else {body})"
+                if len({k for (k, _), _ in pairs}) != len(pairs):
+                    raise Unsupported(f"dict {name}: duplicate keys")
+                return f"Definition {coq_name} (k : {coq_ty(t)}) : option {coq_ty(t)} :=\n{body}."
+        raise Unsupported(f"module-level dict {name} not found")
+
+    def synthetic(self, name: str, stmts: list[ast.stmt], cfg: Fn, rename: dict[str, str]) -> str:
+        f = ast.FunctionDef(name=name, args=ast.arguments(posonlyargs=[], args=[ast.arg(arg=a) for a in cfg.params], vararg=None,
+                            kwonlyargs=[], kw_defaults=[], kwarg=None, defaults=[]), body=[Rename(rename).visit(copy.deepcopy(s)) for s in stmts],
+                            decorator_list=[], returns=None, lineno=stmts[0].lineno)
+        ast.fix_missing_locations(f)
+        self.funcs[name] = f
+        self.sets = {}
+        return self.function(cfg)
+
+
+def find_stmt(body: list[ast.stmt], pred, what: str) -> int:
+    hits = [i for i, s in enumerate(body) if pred(s)]
+    if len(hits) != 1:
+        raise Unsupported(f"expected exactly one statement `{what}`, found {len(hits)}")
+    return hits[0]
+
+
+def src_is(s: ast.AST, txt: str) -> bool:
+    return ast.unparse(s).strip() == txt
 
 
 def gen_constfold() -> str:
@@ -32,16 +331,96 @@ def gen_constfold() -> str:
     tr.funcs["constant_fold_binary_op"] = g
     out.append(tr.function(Fn("constant_fold_binary_op", {"op": "str", "left": "Z", "right": "Z"}, "fres",
                               coq_name="constant_fold_binary_op_int")))
+    # float operations: guards translated, values symbolic (PyRules.py_num_binop)
+    t2 = T12(vlib.read_repo("mypy/constant_fold.py"))
+    out.append(t2.function(Fn("constant_fold_binary_float_op", {"op": "str", "left": "num", "right": "num"}, "fres",
+                              coq_params="(fo : float_oracle) (op : string) (left : num) (right : num)")))
+    if t2.preconditions != ["not both operands are ints"]:
+        raise Unsupported("constant_fold_binary_float_op: leading assertion changed")
+    # the WHOLE dispatcher constant_fold_binary_op, partially evaluated for str/str, str/int, int/str operands
+    t2.known_calls = {"constant_fold_binary_int_op": ("constant_fold_binary_int_op", ["str", "Z", "Z"], "fres")}
+    for lt, rt, nm in (("str", "str", "str_str"), ("str", "Z", "str_int"), ("Z", "str", "int_str")):
+        out.append(t2.function(Fn("constant_fold_binary_op", {"op": "str", "left": lt, "right": rt}, "optstr",
+                                  coq_name="constant_fold_binary_op_" + nm)))
+    # mypyc's extension for bytes
+    t3 = T12(vlib.read_repo("mypyc/irbuild/constant_fold.py"))
+    for lt, rt, nm in (("bytes", "bytes", "bytes_bytes"), ("bytes", "Z", "bytes_int"), ("Z", "bytes", "int_bytes")):
+        out.append(t3.function(Fn("constant_fold_binary_op_extended", {"op": "str", "left": lt, "right": rt}, "optbytes",
+                                  coq_name="constant_fold_binary_op_extended_" + nm)))
     return "\n\n".join(out) + "\n"
 
 
 def gen_reach() -> str:
-    tr = Translator(vlib.read_repo("mypy/reachability.py"))
+    tr = T12(vlib.read_repo("mypy/reachability.py"))
     out = [HEADER.format(src="mypy/reachability.py")]
     out.append(tr.const_defs(["ALWAYS_TRUE", "MYPY_TRUE", "ALWAYS_FALSE", "MYPY_FALSE", "TRUTH_VALUE_UNKNOWN"]))
     out.append("Section FixedComparison.\nVariable T : Type.\nVariable cmp : T -> T -> comparison.")
     out.append(tr.function(Fn("fixed_comparison", {"left": "ord:T", "op": "str", "right": "ord:T"}, "Z")))
     out.append("End FixedComparison.")
+    # tables
+    out.append(tr.dict_table("reverse_op", "reverse_op"))
+    out.append(tr.dict_table("inverted_truth_mapping", "inverted_truth_mapping"))
+    # consider_sys_version_info: the operator guard + everything after index/thing have been computed
+    f = tr.funcs.get("consider_sys_version_info")
+    if f is None:
+        raise Unsupported("consider_sys_version_info not found")
+    body = [s for s in f.body if not (isinstance(s, ast.Expr) and isinstance(s.value, ast.Constant))]
+    g = find_stmt(body, lambda s: isinstance(s, ast.If) and ast.unparse(s.test).startswith("op not in "), "if op not in (...)")
+    sw = find_stmt(body, lambda s: isinstance(s, ast.If) and src_is(s.test, "index is None or thing is None"), "if index is None or thing is None")
+    # the swap block must be exactly: recompute index/thing from the other operands and reverse the operator
+    swap = [ast.unparse(x) for x in body[sw].body]
+    if swap != ["index = contains_sys_version_info(expr.operands[1])", "thing = contains_int_or_tuple_of_ints(expr.operands[0])",
+                "op = reverse_op[op]"] or body[sw].orelse:
+        raise Unsupported(f"operand swap block changed: {swap}")
+    pre = [ast.unparse(x) for x in body[g + 1:sw]]
+    if pre != ["index = contains_sys_version_info(expr.operands[0])", "thing = contains_int_or_tuple_of_ints(expr.operands[1])"]:
+        raise Unsupported(f"index/thing computation changed: {pre}")
+    if not src_is(body[g - 1], "op = expr.operators[0]"):
+        raise Unsupported("operator extraction changed")
+    out.append(tr.synthetic("consider_core", [body[g]] + body[sw + 1:],
+                            Fn("consider_core", {"pyversion": "listZ", "index": "vidx", "op": "str", "thing": "thing"}, "raiseZ"), {}))
+    # consider_sys_platform: comparison core and startswith core
+    f = tr.funcs.get("consider_sys_platform")
+    if f is None:
+        raise Unsupported("consider_sys_platform not found")
+    body = [s for s in f.body if not (isinstance(s, ast.Expr) and isinstance(s.value, ast.Constant))]
+    if len(body) != 1 or not isinstance(body[0], ast.If) or not src_is(body[0].test, "isinstance(expr, ComparisonExpr)"):
+        raise Unsupported("consider_sys_platform: outer dispatch changed")
+    cb = body[0].body
+    g = find_stmt(cb, lambda s: isinstance(s, ast.If) and ast.unparse(s.test).startswith("op not in "), "if op not in (...)")
+    guards = [ast.unparse(x.test) for x in cb[g + 1:-1] if isinstance(x, ast.If)]
+    if guards != ["not is_sys_attr(expr.operands[0], 'platform')", "not isinstance(right, StrExpr)"] or not src_is(cb[g - 1], "op = expr.operators[0]"):
+        raise Unsupported(f"consider_sys_platform: comparison guards changed: {guards}")
+    out.append(tr.synthetic("platform_cmp_core", [cb[g], cb[-1]],
+                            Fn("platform_cmp_core", {"platform": "str", "op": "str", "lit": "str"}, "Z"), {"right.value": "lit"}))
+    call = body[0].orelse
+    if len(call) != 1 or not isinstance(call[0], ast.If) or not src_is(call[0].test, "isinstance(expr, CallExpr)"):
+        raise Unsupported("consider_sys_platform: call branch changed")
+    kb = call[0].body
+    if not src_is(kb[-2].test if isinstance(kb[-2], ast.If) else kb[-2], "expr.callee.name != 'startswith'"):
+        raise Unsupported("consider_sys_platform: method name test changed")
+    out.append(tr.synthetic("platform_startswith_core", [kb[-1]],
+                            Fn("platform_startswith_core", {"platform": "str", "lit": "str"}, "Z"), {"expr.args[0].value": "lit"}))
+    # infer_condition_value: the and/or block
+    f = tr.funcs.get("infer_condition_value")
+    if f is None:
+        raise Unsupported("infer_condition_value not found")
+    blk = None
+    for s in ast.walk(f):
+        if isinstance(s, ast.If) and src_is(s.test, "isinstance(expr, OpExpr)"):
+            blk = s.body
+    if blk is None:
+        raise Unsupported("infer_condition_value: OpExpr branch not found")
+    txt = [ast.unparse(x).split("\n")[0] for x in blk]
+    if txt[:4] != ["if expr.op not in ('or', 'and'):", "left = infer_condition_value(expr.left, options)",
+                   "right = infer_condition_value(expr.right, options)", "results = {left, right}"]:
+        raise Unsupported(f"infer_condition_value: OpExpr prologue changed: {txt[:4]}")
+    out.append(tr.synthetic("infer_op_table", [blk[0]] + blk[3:],
+                            Fn("infer_op_table", {"op": "str", "left": "Z", "right": "Z"}, "Z"), {"expr.op": "op"}))
+    nb = [s for s in f.body if not (isinstance(s, ast.Expr) and isinstance(s.value, ast.Constant))][0]
+    if not (isinstance(nb, ast.If) and src_is(nb.test, "isinstance(expr, UnaryExpr) and expr.op == 'not'")
+            and [ast.unparse(x) for x in nb.body] == ["positive = infer_condition_value(expr.expr, options)", "return inverted_truth_mapping[positive]"]):
+        raise Unsupported("infer_condition_value: `not` branch changed")
     return "\n\n".join(out) + "\n"
 
 
